@@ -55,7 +55,7 @@ for p in props:
 na = [{'property_id': p['id'], 'reason': 'check not built yet'} for p in props if p['id'] not in CLAIMED]
 m = {'version': 1, 'setup_cmd': './setup.sh',
      'hooks': {'guard': 'PYASN1_VERIF_TRACE', 'enable': 'PYASN1_VERIF_TRACE=1 in the environment when pyasn1.codec.ber.decoder is imported turns its module attribute TRACE from None into a list that receives one tuple per state block of SingleItemDecoder.__call__ (enter / state / spec / eoo / exit); only harness/sm_collect.py (a subprocess of the C08 check) sets it. Every other observation comes from the stream doubles of the harness (read/seek/tell/mark); checks import pyasn1 from /repo (PYTHONPATH)',
-               'baseline_off_cmd': 'cd /repo && /venv/bin/python -m pytest -q -p no:cacheprovider', 'source_commits': ['878a9983950d7242f39e51c3981c9e6e85a3d488'], 'add_only': True},
+               'baseline_off_cmd': 'cd /repo && /venv/bin/python -m pytest -q -p no:cacheprovider', 'source_commits': ['878a9983950d7242f39e51c3981c9e6e85a3d488', 'ed241affb376971ec9fbbb491da7c2b1333ab773'], 'add_only': True},
      'engines': [{'name': 'tlc+trace', 'path': 'harness/', 'serves_properties': sorted(CLAIMED),
                   'kind_free_text': 'TLC 1.8 model checking of spec/*.tla + replay into pyasn1 + TLC trace acceptors'}],
      'checks': checks, 'not_applicable': na,
